@@ -67,6 +67,11 @@ pub fn run(cli: &Cli) {
                     { let mut e = pack.ciphertext.clone(); e.push(0); variants.push(("extended", AeadPack { nonce: pack.nonce.clone(), ciphertext: e })); }
                     variants.push(("nonce-swapped", AeadPack { nonce: other_pack.nonce.clone(), ciphertext: pack.ciphertext.clone() }));
                     variants.push(("empty", AeadPack { nonce: pack.nonce.clone(), ciphertext: vec![] }));
+                    // the nonce re-wrapped in the other variant: extended by a tail (12 -> 24) or cut to its head (24 -> 12)
+                    match &pack.nonce {
+                        Nonce::Nonce12(b) => { for tail in [0u8, 0xA5] { let mut n = [tail; 24]; n[..12].copy_from_slice(b); variants.push(("nonce-extended-to-24", AeadPack { nonce: Nonce::Nonce24(n), ciphertext: pack.ciphertext.clone() })); } }
+                        Nonce::Nonce24(b) => { let mut n = [0u8; 12]; n.copy_from_slice(&b[..12]); variants.push(("nonce-cut-to-12", AeadPack { nonce: Nonce::Nonce12(n), ciphertext: pack.ciphertext.clone() })); }
+                    }
                     for (what, v) in variants {
                         let r = c.decrypt_symmetric(key, &v).await;
                         rep.case(&format!("struct:{}:{}:{}:{}", name(c), ki, sz, what), true);
@@ -107,6 +112,13 @@ pub fn run(cli: &Cli) {
                     let r = c.decrypt_asymmetric(&key, &AeadPack { nonce: pack.nonce.clone(), ciphertext: ct }).await;
                     rep.case(&format!("bit:x25519:{}:{}:{}", ki, sz, bit), true);
                     if let Ok(out) = r { if out != pt || true { rep.spec_fail("c10-tampered-pack-decrypts:x25519", json!({"size": sz, "bit": bit, "same_plaintext": out == pt}), "an age pack with one flipped bit decrypted instead of failing"); } }
+                }
+                // the nonce field of an age pack (random filler the age format never reads)
+                for (what, nonce) in [("nonce-field-flipped", { let mut b = pack.nonce.as_ref().to_vec(); b[0] ^= 1; sos_core::crypto::Nonce::Nonce12(b.try_into().unwrap_or([0u8; 12])) }), ("nonce-field-replaced", sos_core::crypto::Nonce::Nonce24([7u8; 24]))] {
+                    if pack.nonce.as_ref().len() != 12 { continue; }
+                    let r = c.decrypt_asymmetric(&key, &AeadPack { nonce, ciphertext: pack.ciphertext.clone() }).await;
+                    rep.case(&format!("struct:x25519:{}:{}:{}", ki, sz, what), true);
+                    if let Ok(out) = r { rep.spec_fail(&format!("c10-tampered-pack-decrypts:x25519:{what}"), json!({"size": sz, "same_plaintext": out == pt}), "an age pack whose nonce field was modified decrypted instead of failing"); }
                 }
                 let mut variants: Vec<(&str, Vec<u8>)> = vec![];
                 if n > 0 { let mut t = pack.ciphertext.clone(); t.pop(); variants.push(("truncated", t)); }
